@@ -61,6 +61,106 @@ class Body:
         self._loop_heads = heads
         return heads
 
+    # ---- local liveness (used to prune dead temporaries at loop heads) -------------
+    def _place_uses(self, p, uses):
+        uses.add(p['local'])
+        for e in p['proj']:
+            if isinstance(e, dict) and 'index' in e:
+                uses.add(e['index'])
+
+    def _op_uses(self, o, uses):
+        if 'copy' in o:
+            self._place_uses(o['copy'], uses)
+        elif 'move' in o:
+            self._place_uses(o['move'], uses)
+
+    def _rv_uses(self, rv, uses, borrowed):
+        k = next(iter(rv))
+        v = rv[k]
+        if k == 'use':
+            self._op_uses(v, uses)
+        elif k in ('ref', 'rawptr'):
+            self._place_uses(v['place'], uses)
+            if not any(e == 'deref' for e in v['place']['proj']):
+                borrowed.add(v['place']['local'])
+        elif k == 'bin':
+            self._op_uses(v['l'], uses)
+            self._op_uses(v['r'], uses)
+        elif k == 'un':
+            self._op_uses(v['x'], uses)
+        elif k == 'agg':
+            for o in v['ops']:
+                self._op_uses(o, uses)
+        elif k == 'discr':
+            self._place_uses(v, uses)
+        elif k == 'cast':
+            self._op_uses(v['op'], uses)
+        elif k == 'repeat':
+            self._op_uses(v['op'], uses)
+
+    def liveness(self):
+        """live-in sets per block; borrowed locals are treated as always live"""
+        if getattr(self, '_live_in', None) is not None:
+            return self._live_in, self._borrowed
+        n = len(self.blocks)
+        use = [set() for _ in range(n)]
+        deff = [set() for _ in range(n)]
+        borrowed = set()
+        for bi, b in enumerate(self.blocks):
+            u, d = use[bi], deff[bi]
+
+            def see_uses(us):
+                for x in us:
+                    if x not in d:
+                        u.add(x)
+            for s in b['stmts']:
+                if s['k'] == 'assign':
+                    us = set()
+                    self._rv_uses(s['rv'], us, borrowed)
+                    pl = s['place']
+                    if pl['proj']:
+                        self._place_uses(pl, us)
+                    see_uses(us)
+                    if not pl['proj']:
+                        d.add(pl['local'])
+            t = b['term']
+            us = set()
+            if t['k'] == 'switch':
+                self._op_uses(t['discr'], us)
+            elif t['k'] == 'call':
+                for o in t['operands']:
+                    self._op_uses(o, us)
+                if 'fn_operand' in t['callee']:
+                    self._op_uses(t['callee']['fn_operand'], us)
+                if t['dest']['proj']:
+                    self._place_uses(t['dest'], us)
+            elif t['k'] == 'drop':
+                self._place_uses(t['place'], us)
+            elif t['k'] == 'assert':
+                self._op_uses(t['cond'], us)
+                for o in t['msg_operands']:
+                    self._op_uses(o, us)
+            elif t['k'] == 'return':
+                us.add(0)
+            see_uses(us)
+            if t['k'] == 'call' and not t['dest']['proj']:
+                d.add(t['dest']['local'])
+        live_in = [set() for _ in range(n)]
+        changed = True
+        while changed:
+            changed = False
+            for bi in range(n - 1, -1, -1):
+                out = set()
+                for s in self.succs(bi, True):
+                    out |= live_in[s]
+                new = use[bi] | (out - deff[bi])
+                if new != live_in[bi]:
+                    live_in[bi] = new
+                    changed = True
+        self._live_in = live_in
+        self._borrowed = borrowed
+        return live_in, borrowed
+
     def calls(self):
         for bi, b in enumerate(self.blocks):
             t = b['term']
